@@ -29,6 +29,7 @@ structure State where
   lim : Lim := { ents := [], maxSize := 0 }
   limClock : Nat := 0
   limPend : Option Nat := none
+  ans : Cache Nat := { data := { segs := #[], count := 0 }, maxSize := 1 }
 
 def optStr (o : Option Nat) : String := match o with | some v => toString v | none => "-"
 
@@ -316,12 +317,39 @@ def stepLim (st : State) (w : List String) : State × String :=
   | "churn" :: _ => (st, "unmodelled")
   | _ => (st, "bad-op")
 
+/-- `ans` ops: the answer caches of middleware/cache on top of `cache.Cache`.
+Entry tokens: an ODD token is an entry that is already expired when stored. -/
+def ansExpired (t : Nat) : Bool := t % 2 == 1
+
+def stepAns (st : State) (w : List String) : State × String :=
+  let c := st.ans
+  match w with
+  | ["new", _kind, size] =>
+    match size.toNat? with
+    | some s => ({ st with ans := Cache.new s }, "ok")
+    | none => (st, "bad-op")
+  | ["set", k, t] =>
+    match k.toNat?, t.toNat? with
+    | some k, some t => let c' := c.ansSet H k t; ({ st with ans := c' }, s!"len={c'.len}")
+    | _, _ => (st, "bad-op")
+  | ["get", k] =>
+    match k.toNat? with
+    | some k => let r := c.ansGet H ansExpired k; ({ st with ans := r.1 }, s!"{optStr r.2} len={r.1.len}")
+    | none => (st, "bad-op")
+  | ["remove", k] =>
+    match k.toNat? with
+    | some k => let c' := c.remove H k; ({ st with ans := c' }, s!"len={c'.len}")
+    | none => (st, "bad-op")
+  | ["len"] => (st, toString c.len)
+  | _ => (st, "bad-op")
+
 def step (st : State) (w : List String) : State × String :=
   match w with
   | "umap" :: r => stepUmap st r
   | "segmap" :: r => stepSegmap st r
   | "cache" :: r => stepCache st r
   | "lim" :: r => stepLim st r
+  | "ans" :: r => stepAns st r
   | "conc" :: _ => (st, "unmodelled")
   | _ => (st, "bad-op")
 
